@@ -11,6 +11,10 @@
 (* classification), application.py (apply: patch | sleep | touch),         *)
 (* clients/patching.py (merge request, then JSON-patch with `test`).       *)
 (* Serves C02, C03, C05 (system level), C06, C07, C11, C14, C15 (stealth). *)
+(* An operator may also have daemons and timers on the object (conf.dh,    *)
+(* optional): process_spawning_cause, stop_daemons and the exiting daemon  *)
+(* killer are then part of the cycle, as in Spawning.tla (which is the     *)
+(* same machinery for an operator with spawning handlers only).            *)
 (*                                                                         *)
 (* One action per code section between two suspension points:              *)
 (*  environment  UserEdit, UserDelete, ForeignAdd/Del, Toggle, Tick,       *)
@@ -55,7 +59,8 @@ VARIABLES
   bl,     \* snapshots released to the operator, not yet taken by the worker (its backlog)
   up,     \* the operator process is running and watching
   stopping,
-  mem,    \* ResourceMemory: [known, nbl (noticed_by_listing), fho (fully_handled_once), rem (remaining fns)]
+  mem,    \* ResourceMemory: [known, nbl (noticed_by_listing), fho (fully_handled_once), rem (remaining fns),
+          \*                  forever (forever_stopped), run (running_daemons: per spawning handler id the instance, see NoRun)]
   wk,     \* worker locals: [exp (expected_version, 0 = none), ctime (consistency_time, 0 = none), pr (pressure)]
   pc,     \* "idle" | "cwait" | "plan" | "r1" | "r1done" | "r3" | "r3done" | "sleep" | "touch" | "touchdone"
   cyc,    \* what the running processing cycle has computed so far
@@ -72,10 +77,21 @@ Lifecycle == conf.lifecycle
 CTimeout == conf.ctimeout
 Registered == {h \in H : HC[h].reasons # {}}
 
+\* daemons and timers (optional): conf.dh = [id |-> [kind ("daemon" | "timer" | "none"), backoff (0 = None), timeout (0 = None), sync]],
+\* conf.polling = settings.background.cancellation_polling, conf.exitto = settings.queueing.exit_timeout
+HasD == "dh" \in DOMAIN conf
+DHs == IF HasD THEN DOMAIN conf.dh ELSE {}
+DH == conf.dh
+DReg == {h \in DHs : DH[h].kind # "none"}
+IsTimer(h) == DH[h].kind = "timer"
+NoRun == [on |-> FALSE, started |-> FALSE, exited |-> FALSE, flag |-> FALSE, when |-> 0, seen |-> FALSE,
+          cset |-> FALSE, creq |-> FALSE, cdel |-> FALSE, aband |-> FALSE, sd |-> {}]
+
 NoCyc == [s |-> [type |-> "none"], reason |-> "none", initial |-> FALSE, sel |-> {}, plan |-> <<>>, np |-> [h \in H |-> NoRec],
           purge |-> FALSE, inv |-> {}, fns |-> {}, req |-> [k |-> "none"], fresh |-> 0, ffins |-> <<>>, rv |-> 0, rem |-> {}, gone |-> FALSE, delays |-> {}, skipped |-> FALSE,
-          wake |-> 0, last |-> [h |-> "none"]]
-FreshMem == [known |-> FALSE, nbl |-> FALSE, fho |-> FALSE, rem |-> {}]
+          wake |-> 0, last |-> [h |-> "none"],
+          todo |-> {}, cur |-> "none", ph |-> "none", age |-> 0, sdelays |-> {}, ct |-> 0]      \* the stopping of daemons: see StopSet / Stage
+FreshMem == [known |-> FALSE, nbl |-> FALSE, fho |-> FALSE, rem |-> {}, forever |-> {}, run |-> [h \in DHs |-> NoRun]]
 FreshWk == [exp |-> 0, ctime |-> 0, pr |-> FALSE, eos |-> FALSE]      \* eos: the end-of-stream marker sits behind what is queued
 
 Init ==
@@ -92,7 +108,8 @@ Init ==
   /\ gh = [succ |-> [h \in H |-> 0], seen |-> [h \in H |-> 0], deldone |-> {}, early |-> FALSE,
            touched |-> FALSE, resumed |-> [h \in H |-> 0], badinv |-> "none", foreignlost |-> FALSE,
            reverted |-> FALSE, leftunmatched |-> FALSE, staleview |-> FALSE,
-           ownrv |-> 0, owntime |-> 0, blindwrite |-> FALSE, cseen |-> [h \in H |-> 0], f8 |-> FALSE]
+           ownrv |-> 0, owntime |-> 0, blindwrite |-> FALSE, cseen |-> [h \in H |-> 0], f8 |-> FALSE,
+           killer |-> FALSE, exiting |-> FALSE, stopat |-> 0, orph |-> FALSE, rematch |-> {}]
 
 Snap(type, o) == [type |-> type, rv |-> o.rv, ess |-> o.ess, lh |-> o.lh, prog |-> o.prog, fins |-> o.fins,
                   deleting |-> o.deleting, match |-> o.match, dummy |-> (o.dummy # 0)]
@@ -102,7 +119,8 @@ Commit(o) ==
   LET gone == o.deleting /\ o.fins = <<>>
       o2 == [o EXCEPT !.rv = obj.rv + 1, !.exists = ~gone]
   IN /\ obj' = o2
-     /\ chan' = IF up THEN Append(chan, Snap(IF gone THEN "DELETED" ELSE "MODIFIED", o2)) ELSE chan
+     \* (the stream of a process that was asked to stop is closed)
+     /\ chan' = IF up /\ ~stopping THEN Append(chan, Snap(IF gone THEN "DELETED" ELSE "MODIFIED", o2)) ELSE chan
 
 (***************************************************************************)
 (* Environment                                                             *)
@@ -126,7 +144,7 @@ UserDelete ==
   /\ obj.exists /\ ~obj.deleting /\ bud.deletes < MaxDeletes
   /\ IF obj.fins # <<>> THEN Commit([obj EXCEPT !.deleting = TRUE])
      ELSE /\ obj' = [obj EXCEPT !.rv = @ + 1, !.exists = FALSE]
-          /\ chan' = IF up THEN Append(chan, Snap("DELETED", obj')) ELSE chan
+          /\ chan' = IF up /\ ~stopping THEN Append(chan, Snap("DELETED", obj')) ELSE chan
   /\ bud' = [bud EXCEPT !.deletes = @ + 1]
   /\ UNCHANGED <<bl, up, stopping, mem, wk, pc, cyc, now, gh>>
   /\ UNCHANGED conf
@@ -154,21 +172,29 @@ Kill ==           \* SIGKILL at any point; an in-flight request that the server 
   /\ up /\ "kill" \in Doors /\ bud.kills < MaxKills
   /\ up' = FALSE /\ stopping' = FALSE /\ pc' = "idle" /\ cyc' = NoCyc /\ bl' = <<>> /\ chan' = <<>>
   /\ mem' = FreshMem /\ wk' = FreshWk /\ bud' = [bud EXCEPT !.kills = @ + 1]
-  /\ UNCHANGED <<obj, now, gh>>
+  /\ gh' = [gh EXCEPT !.killer = FALSE, !.exiting = FALSE, !.rematch = {}]
+  /\ UNCHANGED <<obj, now>>
   /\ UNCHANGED conf
 
+ExitBegin ==      \* (operators with daemons) a graceful exit begins: the root tasks are cancelled, the daemon killer makes its last round ...
+  /\ up /\ DReg # {} /\ ~gh.exiting /\ ~stopping /\ "stop" \in Doors /\ bud.stops < MaxStops
+  /\ gh' = [gh EXCEPT !.exiting = TRUE, !.stopat = now]
+  /\ UNCHANGED <<obj, chan, bl, up, stopping, mem, wk, pc, cyc, now, bud>>
+  /\ UNCHANGED conf
 Stop ==           \* graceful: the watcher is cancelled (no more deliveries); queued events and the running cycle may finish
-  /\ up /\ ~stopping /\ "stop" \in Doors /\ bud.stops < MaxStops
+  /\ up /\ ~stopping /\ "stop" \in Doors /\ bud.stops < MaxStops /\ (DReg # {} => gh.exiting)
   /\ stopping' = TRUE /\ bud' = [bud EXCEPT !.stops = @ + 1]
   /\ wk' = [wk EXCEPT !.eos = (bl # <<>> \/ pc # "idle")]      \* a worker that is busy gets the marker behind its backlog
-  /\ UNCHANGED <<obj, chan, bl, up, mem, pc, cyc, now, gh>>
+  /\ chan' = <<>>                 \* what the closed stream had not handed over is lost
+  /\ UNCHANGED <<obj, bl, up, mem, pc, cyc, now, gh>>
   /\ UNCHANGED conf
 
 Down ==
-  /\ up /\ stopping /\ pc \in {"idle", "cwait", "sleep"}
+  /\ up /\ stopping /\ pc \in {"idle", "cwait", "sleep"} /\ (DReg # {} => gh.killer)
   /\ up' = FALSE /\ stopping' = FALSE /\ pc' = "idle" /\ cyc' = NoCyc /\ bl' = <<>> /\ chan' = <<>>
   /\ mem' = FreshMem /\ wk' = FreshWk
-  /\ UNCHANGED <<obj, now, bud, gh>>
+  /\ gh' = [gh EXCEPT !.killer = FALSE, !.exiting = FALSE, !.rematch = {}]
+  /\ UNCHANGED <<obj, now, bud>>
   /\ UNCHANGED conf
 
 Start ==          \* a new process: fresh memories; the initial listing shows the latest state only
@@ -228,42 +254,104 @@ EnterHandlers(s, m, reason, fns) ==
                         !.np = pre.np, !.purge = pre.purge, !.plan = PlanOf(todo, pre.np), !.fns = fns]
   ELSE [NoCyc EXCEPT !.s = s, !.reason = reason, !.fns = fns]
 
+\* spawning handlers that match the view and have not left on their own: they are wanted, and they need the finalizer
+DMatching(s, forever) == {h \in DReg : h \notin forever /\ s.match}
+Alive(h) == mem.run[h].on /\ mem.run[h].started /\ ~mem.run[h].exited
+\* is a live instance still entitled to hold the object? not once its cancellation timeout has run out
+Entitled(h) == Alive(h) /\ ~IsTimer(h)
+               /\ ~(mem.run[h].flag /\ DH[h].timeout > 0 /\ now >= mem.run[h].when + DH[h].backoff + DH[h].timeout)
+
+\* the section of process_resource_causes from the finalizer decisions to the consistency verdict, for the view s, the recalled
+\* memory m1, the consistency deadline ct and the delays sd that the stopping of daemons asked for
+Decision(s, m1, ct, sd) ==
+  LET reason0 == IF Registered = {} THEN "none"
+                 ELSE DetectCause(s.type, s.deleting, Blocked(s), s.lh # 0, s.lh # s.ess, Initial(m1))
+      reason1 == IF s.match THEN reason0 ELSE "none"          \* prematch: be blind to unmatched objects
+      mustBlock == (reason1 # "none" /\ Mandatory # {}) \/ DMatching(s, m1.forever) # {}
+      addK == mustBlock /\ ~Blocked(s) /\ ~s.deleting
+      delK == ~mustBlock /\ Blocked(s)
+      \* (the framework's finalizer transformations carried over from a conflicted cycle are dropped and re-decided on this
+      \* view: fix F30; user transformations are not in this model)
+      rem0 == {}
+      fns == rem0 \cup (IF addK THEN {"add"} ELSE {}) \cup (IF delK THEN {"del"} ELSE {})
+      reason2 == IF addK \/ delK THEN "none" ELSE reason1
+      required == reason2 # "none"
+      achieved0 == ct = 0 \/ ct <= now \/ reason2 = "gone"
+  IN [stale |-> (ct # 0 /\ ct <= now /\ reason2 \in HandlerReasons /\ fns = {} /\ rem0 = {}),
+      pc |-> IF required /\ ~achieved0 /\ fns = {} THEN "cwait" ELSE "plan",
+      cyc |-> IF required /\ ~achieved0 /\ fns = {}
+              THEN \* wait for the echo of the own patch (interruptible by newer events)
+                   [NoCyc EXCEPT !.s = s, !.reason = reason2, !.wake = ct, !.fns = fns, !.sdelays = sd]
+              ELSE IF required /\ ~(achieved0 /\ rem0 = {})
+              THEN \* inconsistent and a patch is pending: no change handlers in this cycle
+                   [NoCyc EXCEPT !.s = s, !.reason = "none", !.fns = fns, !.skipped = TRUE, !.sdelays = sd]
+              ELSE [EnterHandlers(s, m1, reason2, fns) EXCEPT !.sdelays = sd]]
+
 ProcBegin ==
   /\ up /\ pc = "idle" /\ bl # <<>>
   /\ LET s == Head(bl)
-         m1 == IF mem.known THEN mem ELSE [known |-> TRUE, nbl |-> (s.type = "NONE"), fho |-> FALSE, rem |-> {}]
+         m1 == IF mem.known THEN mem ELSE [FreshMem EXCEPT !.known = TRUE, !.nbl = (s.type = "NONE")]
          echo == wk.exp # 0 /\ wk.exp = s.rv
          ct == IF echo THEN 0 ELSE wk.ctime
-         reason0 == IF Registered = {} THEN "none"
-                    ELSE DetectCause(s.type, s.deleting, Blocked(s), s.lh # 0, s.lh # s.ess, Initial(m1))
-         reason1 == IF s.match THEN reason0 ELSE "none"          \* prematch: be blind to unmatched objects
-         mustBlock == reason1 # "none" /\ Mandatory # {}
-         addK == mustBlock /\ ~Blocked(s) /\ ~s.deleting
-         delK == ~mustBlock /\ Blocked(s)
-         \* (the framework's finalizer transformations carried over from a conflicted cycle are dropped and re-decided on this
-         \* view: fix F30; user transformations are not in this model)
-         rem0 == {}
-         fns == rem0 \cup (IF addK THEN {"add"} ELSE {}) \cup (IF delK THEN {"del"} ELSE {})
-         reason2 == IF addK \/ delK THEN "none" ELSE reason1
-         required == reason2 # "none"
-         achieved0 == ct = 0 \/ ct <= now \/ reason2 = "gone"
+         gone == s.type = "DELETED"
+         \* process_spawning_cause: spawn what is wanted and not running; what is running and not wanted (or everything, for an
+         \* object marked for deletion) is to be stopped - one instance after the other, see StopSet
+         mine == {h \in DHs : m1.run[h].on}
+         wanted == DMatching(s, m1.forever)
+         tospawn == IF s.deleting THEN {} ELSE wanted \ mine
+         tostop == IF s.deleting THEN mine ELSE mine \ wanted
+         run1 == [h \in DHs |-> IF h \in tospawn THEN [NoRun EXCEPT !.on = TRUE, !.started = IsTimer(h)] ELSE m1.run[h]]
+         d == Decision(s, m1, ct, {})
      IN
-     /\ gh' = [gh EXCEPT !.staleview = @ \/ (ct # 0 /\ ct <= now /\ reason2 \in HandlerReasons /\ fns = {} /\ rem0 = {})]
      /\ bl' = Tail(bl)
      \* (the pressure is relieved only when the backlog is empty: not while the end-of-stream marker of an exiting watcher is in it)
      /\ wk' = [exp |-> IF echo THEN 0 ELSE wk.exp, ctime |-> ct, pr |-> IF Tail(bl) = <<>> /\ ~wk.eos THEN FALSE ELSE wk.pr, eos |-> wk.eos]
-     /\ mem' = IF s.type = "DELETED" THEN FreshMem ELSE m1
-     /\ IF required /\ ~achieved0 /\ fns = {}
-        THEN \* wait for the echo of the own patch (interruptible by newer events)
-             /\ pc' = "cwait"
-             /\ cyc' = [NoCyc EXCEPT !.s = s, !.reason = reason2, !.wake = ct, !.fns = fns]
-        ELSE IF required /\ ~(achieved0 /\ rem0 = {})
-        THEN \* inconsistent and a patch is pending: no change handlers in this cycle
-             /\ pc' = "plan"
-             /\ cyc' = [NoCyc EXCEPT !.s = s, !.reason = "none", !.fns = fns, !.skipped = TRUE]
-        ELSE /\ pc' = "plan"
-             /\ cyc' = EnterHandlers(s, m1, reason2, fns)
+     \* (memories.forget on DELETED: the instances that are running - and those this very cycle spawns - are out of sight from now on)
+     /\ mem' = IF gone THEN FreshMem ELSE [m1 EXCEPT !.run = run1]
+     /\ IF DReg = {}
+        THEN pc' = d.pc /\ cyc' = d.cyc /\ gh' = [gh EXCEPT !.staleview = @ \/ d.stale]
+        ELSE /\ pc' = "stop"
+             /\ cyc' = [NoCyc EXCEPT !.s = s, !.todo = IF gone THEN {} ELSE tostop, !.ct = ct]
+             /\ gh' = [gh EXCEPT !.orph = @ \/ (gone /\ (mine # {} \/ tospawn # {})),
+                                 !.rematch = @ \cup {h \in mine \cap wanted : m1.run[h].flag}]
   /\ UNCHANGED <<obj, chan, up, stopping, now, bud>>
+  /\ UNCHANGED conf
+
+\* stop_daemons: one instance after another; the age of the stop flag is taken before it is (re-)set; an idle timer ends within
+\* the instant-exit window
+SetRun(h, r) == mem' = [mem EXCEPT !.run[h] = r]
+StopSet(h) ==
+  /\ up /\ pc = "stop" /\ cyc.cur = "none" /\ h \in cyc.todo
+  /\ LET r == mem.run[h]  age == IF r.flag THEN now - r.when ELSE 0
+     IN /\ IF IsTimer(h) /\ r.on THEN SetRun(h, NoRun)
+           ELSE SetRun(h, [r EXCEPT !.flag = TRUE, !.when = IF r.flag THEN @ ELSE now])
+        /\ cyc' = [cyc EXCEPT !.cur = h, !.ph = "set", !.age = age]
+  /\ UNCHANGED <<obj, chan, bl, up, stopping, wk, pc, now, bud, gh>>
+  /\ UNCHANGED conf
+Stage(h) ==       \* after the instant-exit window: done | wait for the backoff | cancel | abandon | poll
+  /\ up /\ pc = "stop" /\ cyc.cur = h /\ cyc.ph = "set"
+  /\ LET r == mem.run[h]  b == DH[h].backoff  t == DH[h].timeout  age == cyc.age
+         next(dl) == [cyc EXCEPT !.cur = "none", !.ph = "none", !.todo = @ \ {h}, !.sdelays = @ \cup dl]
+     IN IF ~r.on THEN cyc' = next({}) /\ UNCHANGED mem
+        ELSE IF b > 0 /\ age < b THEN cyc' = next({b - age}) /\ UNCHANGED mem
+        ELSE IF t > 0 /\ age < t + b
+             THEN IF ~r.cset THEN SetRun(h, [r EXCEPT !.cset = TRUE, !.creq = TRUE]) /\ cyc' = [cyc EXCEPT !.ph = "canc"]
+                  ELSE cyc' = next({t + b - age}) /\ UNCHANGED mem
+        ELSE IF t > 0 THEN SetRun(h, [r EXCEPT !.aband = TRUE]) /\ cyc' = next({})
+        ELSE cyc' = next({conf.polling}) /\ UNCHANGED mem
+  /\ UNCHANGED <<obj, chan, bl, up, stopping, wk, pc, now, bud, gh>>
+  /\ UNCHANGED conf
+StageC(h) ==
+  /\ up /\ pc = "stop" /\ cyc.cur = h /\ cyc.ph = "canc"
+  /\ cyc' = [cyc EXCEPT !.cur = "none", !.ph = "none", !.todo = @ \ {h},
+                        !.sdelays = IF mem.run[h].on THEN @ \cup {DH[h].timeout + DH[h].backoff - cyc.age} ELSE @]
+  /\ UNCHANGED <<obj, chan, bl, up, stopping, mem, wk, pc, now, bud, gh>>
+  /\ UNCHANGED conf
+Decide ==         \* the daemons are dealt with: on to the finalizer decisions and the consistency verdict
+  /\ up /\ pc = "stop" /\ cyc.cur = "none" /\ cyc.todo = {}
+  /\ LET d == Decision(cyc.s, mem, cyc.ct, cyc.sdelays)
+     IN pc' = d.pc /\ cyc' = d.cyc /\ gh' = [gh EXCEPT !.staleview = @ \/ d.stale]
+  /\ UNCHANGED <<obj, chan, bl, up, stopping, mem, wk, now, bud>>
   /\ UNCHANGED conf
 
 CWaitWoken ==     \* stream pressure: newer events are queued; skip the change handlers, go on to them
@@ -274,7 +362,7 @@ CWaitWoken ==     \* stream pressure: newer events are queued; skip the change h
 
 CWaitTimeout ==   \* the consistency timeout has elapsed since the patch: assume consistency
   /\ up /\ pc = "cwait" /\ ~wk.pr /\ now >= cyc.wake /\ "late" \in Doors
-  /\ pc' = "plan" /\ cyc' = EnterHandlers(cyc.s, mem, cyc.reason, cyc.fns)
+  /\ pc' = "plan" /\ cyc' = [EnterHandlers(cyc.s, mem, cyc.reason, cyc.fns) EXCEPT !.sdelays = cyc.sdelays]
   /\ gh' = [gh EXCEPT !.staleview = @ \/ (cyc.reason \in HandlerReasons)]
   /\ UNCHANGED <<obj, chan, bl, up, stopping, mem, wk, now, bud>>
   /\ UNCHANGED conf
@@ -344,7 +432,8 @@ ProcFinish ==
                                    ELSE IF cyc.purge /\ s.prog[h].st # "none" THEN "purge" ELSE "keep"]
          progChanged == \E h \in H : progPatch[h] # "keep"
          lhNew == IF closing /\ s.ess # s.lh THEN s.ess ELSE 0
-         cdelays == IF handled THEN {MaxN(np[h].until, now) - now : h \in {x \in cyc.sel : ~Finished(np[x])}} ELSE {}
+         cdelays == (IF handled THEN {MaxN(np[h].until, now) - now : h \in {x \in cyc.sel : ~Finished(np[x])}} ELSE {})
+                    \cup cyc.sdelays           \* ... and what the stopping of daemons asked for
          release == s.type # "DELETED" /\ s.deleting /\ Blocked(s) /\ cdelays = {} /\ ~cyc.skipped
          fns == cyc.fns \cup (IF release THEN {"del"} ELSE {})
          nonempty == progChanged \/ lhNew # 0 \/ fns # {}
@@ -411,7 +500,7 @@ SrvJson ==
           IN /\ IF f2 # obj.fins
                 THEN /\ Commit([obj EXCEPT !.fins = f2])
                      /\ gh' = [gh EXCEPT !.early = @ \/ (obj.deleting /\ K \in Range(obj.fins) /\ K \notin Range(f2)
-                                                         /\ obj.match /\ ~(Mandatory \subseteq gh.deldone)),
+                                                         /\ obj.match /\ (~(Mandatory \subseteq gh.deldone) \/ \E h \in DHs : Entitled(h))),
                                          !.foreignlost = @ \/ (Remove(f2, K) # Remove(obj.fins, K))]
                 ELSE UNCHANGED <<obj, chan, gh>>
              /\ cyc' = [cyc EXCEPT !.rv = IF obj'.deleting /\ obj'.fins = <<>> THEN NeverRv ELSE obj'.rv, !.rem = {}]
@@ -448,20 +537,71 @@ SrvTouch ==
      THEN pc' = "post" /\ UNCHANGED <<obj, chan, gh, cyc>>
      ELSE /\ Commit([obj EXCEPT !.dummy = now + 1])
           /\ cyc' = [cyc EXCEPT !.rv = obj'.rv, !.delays = {}]
-          /\ gh' = [gh EXCEPT !.touched = TRUE, !.blindwrite = @ \/ ~cyc.s.match]
+          \* (a daemon that is being stopped because the object no longer matches is polled through touches: the framework's own
+          \* unfinished business with the object, like the withdrawal of its finalizer)
+          /\ gh' = [gh EXCEPT !.touched = TRUE, !.blindwrite = @ \/ (~cyc.s.match /\ cyc.sdelays = {})]
           /\ pc' = "post"
   /\ UNCHANGED <<bl, up, stopping, mem, wk, now, bud>>
   /\ UNCHANGED conf
+
+(***************************************************************************)
+(* Daemons and timers: the user's functions, the exiting daemon killer      *)
+(* (see Spawning.tla for the same machinery with its pausing branch)        *)
+(***************************************************************************)
+DOnly == UNCHANGED <<obj, chan, bl, up, stopping, wk, pc, cyc, now, bud, gh>> /\ UNCHANGED conf
+DEnter(h) ==      \* the guarding task starts and calls the function
+  /\ up /\ h \in DHs /\ mem.run[h].on /\ ~mem.run[h].started /\ ~IsTimer(h)
+  /\ SetRun(h, [mem.run[h] EXCEPT !.started = TRUE]) /\ DOnly
+DSeeFlag(h) ==
+  /\ up /\ h \in DHs /\ Alive(h) /\ mem.run[h].flag /\ ~mem.run[h].seen /\ ~IsTimer(h)
+  /\ SetRun(h, [mem.run[h] EXCEPT !.seen = TRUE]) /\ DOnly
+DCancelled(h) ==  \* a requested cancellation reaches the coroutine (a thread cannot be cancelled)
+  /\ up /\ h \in DHs /\ Alive(h) /\ mem.run[h].creq /\ ~DH[h].sync /\ ~IsTimer(h)
+  /\ SetRun(h, [mem.run[h] EXCEPT !.cdel = TRUE, !.creq = FALSE]) /\ DOnly
+DExit(h) ==       \* the function returns or raises ...
+  /\ up /\ h \in DHs /\ Alive(h) /\ ~IsTimer(h)
+  /\ SetRun(h, [mem.run[h] EXCEPT !.exited = TRUE]) /\ DOnly
+REnd(h) ==        \* ... and its guarding task runs its finally: stopped forever if it ended with no stop flag; unregistered
+  /\ up /\ h \in DHs /\ mem.run[h].on /\ mem.run[h].exited
+  /\ mem' = [mem EXCEPT !.run[h] = NoRun, !.forever = IF ~mem.run[h].flag THEN @ \cup {h} ELSE @]
+  /\ DOnly
+\* daemon_killer's finally-block when the operator exits: a stop_daemon() for every instance in sight
+KillerExit ==
+  /\ up /\ gh.exiting /\ ~gh.killer /\ DReg # {}
+  /\ mem' = [mem EXCEPT !.run = [h \in DHs |-> IF mem.run[h].on
+                                               THEN (IF IsTimer(h) THEN NoRun
+                                                     ELSE [mem.run[h] EXCEPT !.flag = TRUE, !.when = IF mem.run[h].flag THEN @ ELSE now, !.sd = @ \cup {now}])
+                                               ELSE mem.run[h]]]
+  /\ gh' = [gh EXCEPT !.killer = TRUE]
+  /\ UNCHANGED <<obj, chan, bl, up, stopping, wk, pc, cyc, now, bud>>
+  /\ UNCHANGED conf
+KCancel(h) ==     \* stop_daemon(): after the backoff on its own clock, cancel (if there is a cancellation timeout)
+  /\ up /\ h \in DHs /\ mem.run[h].on /\ DH[h].timeout > 0
+  /\ \E t \in mem.run[h].sd : now >= t + DH[h].backoff /\ SetRun(h, [mem.run[h] EXCEPT !.sd = @ \ {t}, !.cset = TRUE, !.creq = TRUE])
+  /\ DOnly
+KDrop(h) ==
+  /\ up /\ h \in DHs /\ mem.run[h].on /\ DH[h].timeout = 0
+  /\ \E t \in mem.run[h].sd : now >= t + DH[h].backoff /\ SetRun(h, [mem.run[h] EXCEPT !.sd = @ \ {t}])
+  /\ DOnly
+\* the watcher has ended: the workers are cancelled when the exit timeout has passed (a sleeping one is not woken before)
+WorkerAbort ==
+  /\ up /\ stopping /\ HasD /\ now >= gh.stopat + conf.exitto /\ (pc = "sleep" \/ bl # <<>>) /\ pc \in {"idle", "sleep"}
+  /\ pc' = "idle" /\ cyc' = NoCyc /\ bl' = <<>>
+  /\ UNCHANGED <<obj, chan, up, stopping, mem, wk, now, bud, gh>>
+  /\ UNCHANGED conf
+DaemonOpStep == (\E h \in DHs : StopSet(h) \/ Stage(h) \/ StageC(h) \/ KCancel(h) \/ KDrop(h)) \/ Decide \/ KillerExit \/ WorkerAbort
+DaemonUrgent == \E h \in DHs : DEnter(h) \/ REnd(h) \/ DCancelled(h)
+DStep == \E h \in DHs : DEnter(h) \/ DSeeFlag(h) \/ DCancelled(h) \/ DExit(h) \/ REnd(h)
 
 (***************************************************************************)
 (* Time: the clock may not pass a moment at which the operator has         *)
 (* something to do.                                                        *)
 (***************************************************************************)
 OpStep == ProcBegin \/ CWaitWoken \/ CWaitTimeout \/ Invoke \/ ProcFinish \/ SrvMerge \/ Reply1 \/ SrvJson \/ Post
-          \/ SleepWake \/ SleepExpire \/ SrvTouch
+          \/ SleepWake \/ SleepExpire \/ SrvTouch \/ DaemonOpStep
 \* Not urgent: Down (the process exits some time after a graceful stop) and Deliver (how long the stream
 \* takes to hand over a committed change -- the echo delay of C07 -- is up to the environment)
-Urgent == OpStep
+Urgent == OpStep \/ DaemonUrgent \/ (Stop /\ DReg # {})      \* (the stream of an exiting operator is closed in the same instant)
 Tick ==
   /\ now < Horizon /\ ~ENABLED Urgent
   /\ ("late" \notin Doors => chan = <<>>)      \* door closed: the stream hands changes over without delay
@@ -470,8 +610,8 @@ Tick ==
   /\ UNCHANGED conf
 
 EnvStep == (\E e \in EssVals : UserEdit(e) \/ Toggle(e)) \/ UserDelete \/ (\E f \in Foreign : ForeignAdd(f) \/ ForeignDel(f))
-           \/ Kill \/ Stop \/ Start \/ Relist
-Next == OpStep \/ Deliver \/ EnvStep \/ Down \/ Tick
+           \/ Kill \/ Stop \/ ExitBegin \/ Start \/ Relist
+Next == OpStep \/ DStep \/ Deliver \/ EnvStep \/ Down \/ Tick
 SafeSpec == Init /\ [][Next]_vars
 Spec == Init /\ [][Next]_vars /\ WF_vars(OpStep) /\ WF_vars(Deliver) /\ WF_vars(Tick) /\ WF_vars(Start)
 
@@ -503,6 +643,10 @@ RetriesBounded == \A h \in H : HC[h].retries # 0 => obj.prog[h].r <= HC[h].retri
 \* C15 (stealth): processing a view that no handler matches writes nothing but the withdrawal of the finalizer
 \* (together with which the framework's own touch marker may be cleared)
 Stealth == ~gh.blindwrite
+\* C09 (daemons beside change handlers): cancelled only after the backoff since the flag; cancelled / abandoned / seen only if flagged
+DaemonStages == \A h \in DHs : LET r == mem.run[h] IN
+                  /\ ((r.cset /\ ~gh.exiting) => now >= r.when + DH[h].backoff)
+                  /\ (((r.cset /\ ~gh.exiting) \/ r.aband \/ r.seen \/ r.sd # {}) => r.flag)
 \* C06
 NeverEarly == ~gh.early
 ForeignUntouched == ~gh.foreignlost
@@ -531,7 +675,7 @@ Witness_F21 == ~(Terminal /\ ~Converged /\ Family_F21 /\ ~Family_F20 /\ ~Family_
 Witness_F22 == ~(Terminal /\ ~Converged /\ Family_F22 /\ ~Family_F20 /\ ~Family_F21)
 FollowsMatching ==    \* C06: at rest the finalizer is on the object iff handlers require it
   (up /\ ~ENABLED Urgent /\ pc = "idle" /\ obj.exists /\ ~obj.deleting /\ chan = <<>> /\ bl = <<>> /\ mem.known) =>
-     (K \in Range(obj.fins) <=> (obj.match /\ Mandatory # {}))
+     (K \in Range(obj.fins) <=> (obj.match /\ (Mandatory # {} \/ DReg \ mem.forever # {})))
 FinalStateSeen == (up /\ Converged /\ ~ENABLED Urgent /\ obj.exists /\ obj.match /\ bl = <<>> /\ chan = <<>>) =>
                     \A h \in H : (gh.seen[h] # 0 /\ HC[h].reasons \cap {"create", "update"} # {}) => gh.seen[h] = obj.ess
 Termination == <>[](~ENABLED OpStep)
